@@ -350,8 +350,8 @@ theorem execPhases_originals (cfg : Cfg) (H : Hashes) (ops : List PhaseOp) : ∀
       subst ha
       simpa [List.append_assoc] using ho'
 
-/-- what a phase can reply: CIRCUIT_OPEN, nothing (`run` raised: un-encodable prompt, an agent exception that
-    cannot be rendered, an agent's BaseException), an ERROR after an agent exception, the gate's result for the
+/-- what a phase can reply: CIRCUIT_OPEN, nothing (`run` raised: un-encodable prompt, an agent's BaseException),
+    an ERROR after an agent exception (renderable or not), the gate's result for the
     finishing request's own prompt and verdicts, or a cache entry (flagged) at a look-up -/
 theorem phaseStep_out (cfg : Cfg) (H : Hashes) (s : State) (op : PhaseOp) (o : Out)
     (h : (phaseStep cfg H s op).2 = some o) :
@@ -369,7 +369,7 @@ theorem phaseStep_out (cfg : Cfg) (H : Hashes) (s : State) (op : PhaseOp) (o : O
   | execCall => simp [phaseStep] at h
   | assessCall => simp [phaseStep] at h
   | agentRaised => right; right; left; simp [phaseStep, agentRaised] at h; exact h.symm
-  | agentRaisedU => right; left; simp [phaseStep, agentRaisedU] at h; rw [← h]
+  | agentRaisedU => right; right; left; simp [phaseStep, agentRaisedU] at h; exact h.symm
   | agentAborted => right; left; simp [phaseStep, agentAborted] at h; rw [← h]
   | finish p z y =>
     simp only [phaseStep, Option.some.injEq] at h
